@@ -17,9 +17,11 @@ import Driver.C15
 import Driver.C16
 import Driver.C17
 import Driver.C18
+import Driver.C19
+import Driver.C20
 open Drv
 
-def handlers : List (String → Handler) := [Drv.C08.handle, Drv.C09.handle, Drv.C10.handle, Drv.C12.handle, Drv.Sch.handle, Drv.C01.handle, Drv.C02.handle, Drv.C03.handle, Drv.C05.handle, Drv.C04.handle, Drv.C06.handle, Drv.KS.handle, Drv.C13.handle, Drv.C14.handle, Drv.C15.handle, Drv.C16.handle, Drv.C17.handle, Drv.C18.handle]
+def handlers : List (String → Handler) := [Drv.C08.handle, Drv.C09.handle, Drv.C10.handle, Drv.C12.handle, Drv.Sch.handle, Drv.C01.handle, Drv.C02.handle, Drv.C03.handle, Drv.C05.handle, Drv.C04.handle, Drv.C06.handle, Drv.KS.handle, Drv.C13.handle, Drv.C14.handle, Drv.C15.handle, Drv.C16.handle, Drv.C17.handle, Drv.C18.handle, Drv.C19.handle, Drv.C20.handle]
 
 def answer (line : String) : String :=
   let (lhs, impl) := match line.trimAscii.toString.splitOn " => " with
